@@ -367,6 +367,7 @@ void World::doFork(const Op& op) {
 	Slot& A2 = slots[size_t(iA)];
 	C.h->role = "C";
 	C.h->entered = A2.h->entered;
+	C.extSuccess = A2.extSuccess; C.extFailure = A2.extFailure; C.appendsOk = A2.appendsOk; C.removals = A2.removals;
 	C.h->loggerOn = A2.h->loggerOn;
 	C.h->beginOp(&neutral);
 	C.node->copyConstruct(C.arena->base, *A2.node, C.h.get());
@@ -401,6 +402,7 @@ void World::doKillOriginal(const Op& op) {
 	fault("original_destroyed");
 	// the copy carries on as the authority; the old storage stays poisoned until the run ends
 	std::swap(A.node, C.node); std::swap(A.h, C.h); std::swap(A.arena, C.arena); std::swap(A.obs, C.obs); std::swap(A.expectActivated, C.expectActivated);
+	std::swap(A.extSuccess, C.extSuccess); std::swap(A.extFailure, C.extFailure);
 	A.h->index = iA; A.h->role = "A";
 	C.node.reset(); C.h.reset();
 	// keep the poisoned arena alive in the vacated slot
